@@ -19,7 +19,9 @@ import (
 )
 
 type Toolchain struct {
-	Dir string // contains bin/ferret, libs/
+	Dir string // contains bin/ferret, bin/ferretd, libs/
+	// Server, when non-nil, is a persistent compile server (accelerator); CLI spawns are used otherwise.
+	Server *Server
 }
 
 func (tc Toolchain) Ferret() string { return filepath.Join(tc.Dir, "bin", "ferret") }
@@ -123,10 +125,24 @@ type CompileOpts struct {
 	Timeout   time.Duration
 	Entry     string // default main.fer
 	ExtraArgs []string
+	ForceCLI  bool
+	GoMaxProcs int   // 0 = default
+	Sched     string // FERRET_VERIF_SCHED value
 }
 
-// Compile runs the real CLI in dir.
+// Compile compiles the project in dir: through the persistent server when one is
+// attached (and the options allow it), otherwise by running the real CLI.
 func (tc Toolchain) Compile(dir string, o CompileOpts) *CompileResult {
+	if tc.Server != nil && len(o.ExtraArgs) == 0 && !o.ForceCLI {
+		if r := tc.Server.Compile(tc, dir, o); r != nil {
+			return r
+		}
+	}
+	return tc.CompileCLI(dir, o)
+}
+
+// CompileCLI runs the real CLI in dir.
+func (tc Toolchain) CompileCLI(dir string, o CompileOpts) *CompileResult {
 	args := []string{}
 	if o.TypeOnly {
 		args = append(args, "-t")
@@ -154,7 +170,13 @@ func (tc Toolchain) Compile(dir string, o CompileOpts) *CompileResult {
 	defer cancel()
 	cmd := exec.CommandContext(ctx, tc.Ferret(), args...)
 	cmd.Dir = dir
-	cmd.Env = append(os.Environ(), "FERRET_LIBS_PATH="+tc.Libs())
+	// GOMAXPROCS=2 by default: many shards run compilers concurrently and a 16-thread Go
+	// runtime per short-lived compiler process only adds scheduling overhead (C14/C15 override it).
+	gmp := 2
+	if o.GoMaxProcs > 0 {
+		gmp = o.GoMaxProcs
+	}
+	cmd.Env = append(os.Environ(), "FERRET_LIBS_PATH="+tc.Libs(), fmt.Sprintf("GOMAXPROCS=%d", gmp), "FERRET_VERIF_SCHED="+o.Sched)
 	cmd.Env = append(cmd.Env, o.Env...)
 	var buf bytes.Buffer
 	cmd.Stdout = &buf
